@@ -27,7 +27,7 @@ PROPS = {
         'design_ref': 'DESIGN.md §6 C03',
     },
     'C05': {
-        'verus': ['source_map', 'tokenizer_ranges', 'analyzer_run'],
+        'verus': ['source_map', 'tokenizer_ranges', 'analyzer_run', 'analyzer_kinds'],
         'kani': ['tokenizer_matchers'],
         'level': 'proof',
         'design_ref': 'DESIGN.md §5 U5, §6 C05',
@@ -122,7 +122,7 @@ UNDECIDED = {
     'C02': ["precedence / associativity / parentheses (shape of the eight mutually recursive evaluator tiers over &mut Interpreter): undecided - CBMC cannot execute a 5-token expression through Interpreter, Verus cannot type the evaluators", "ABS / INT (closures in evaluate_function_call), ^ values (powf), PRINT number formatting (f64 Display): undecided", "* and / values beyond the stated small-integer domain: the SAT back end does not decide two 64-bit float multiplier circuits in budget"],
     'C01': ["panic-freedom is decided for the statement and expression evaluators (units statements, expressions) except evaluate_user_defined_function_call, evaluate_print_statement, end_loop, next_data_element, which enter as assumed contracts; for the tokenizer it is decided for the driver, the punctuation / blank / identifier matchers; string-literal, numeral, REM, DATA matchers and the DATA item parser are undecided", "native stack exhaustion by nested parentheses: no stack model in either tool", "get_line_with_pointer_caret (fmt): undecided"],
     'C03': ["statement dispatch as a whole, the IF false-branch scan's choice of clause, FOR/NEXT arithmetic in doubles (end_loop), DIM/array statements: undecided; decided pieces of the anchored mechanisms only - this is not a differential check against a reference interpreter", "IF/ELSE interplay: decided for GOSUB (a GOSUB directly followed by ELSE does not return in front of it); a FOR in a THEN clause that has an ELSE is not covered"],
-    'C05': ["SourceFileAnalyzer::run / analyze_lines / populate_symbol_access_warnings are proved (after normalisations N9, N10) to keep every stored line mapped to the file line that defined it, which makes the `unwrap()` and the `panic!` of the mapping step unreachable - relative to ASSUMED contracts for the statement analyzer (keeps the stored lines, stays on its line, reports and records only token positions of stored lines, never raises the DATA-coercion error), the tokenizer (one byte range per token) and the symbol table (every warning names a recorded position); SourceFileAnalyzer::analyze (split / map / collect) is not covered", "that there is one token list per file line, and that the per-line token lists carry the tokenizer's ranges, is not stated", "that registered token ranges lie within the line on char boundaries is C13's claim (not applicable)", "per-line token lists, symbol-warning mapping with unwrap: undecided"],
+    'C05': ["SourceFileAnalyzer::run / analyze_lines / populate_symbol_access_warnings are proved (after normalisations N9, N10) to keep every stored line mapped to the file line that defined it, which makes the `unwrap()` and the `panic!` of the mapping step unreachable; the whole statement and expression analyzer (statement_analyzer.rs, expression_analyzer.rs: 38 functions, unit analyzer_kinds) is proved to keep the stored lines, keep the cursor inside its stored line and record only token positions of stored lines. ASSUMED: the links through the two borrowing temporaries; what an analysis ERROR carries (not the DATA-coercion kind; an explicit position is a token position) - Verus does not model the error conversion done by the `?` operator, so errors that went through `check_number()?` are opaque; the tokenizer as the analyzer calls it (one byte range per token); the symbol table (HashMap entry API) records the position it is given and every warning names a recorded position", "SourceFileAnalyzer::analyze (split / map / collect), one token list per file line, and that the per-line lists carry the tokenizer's ranges: not stated", "that registered token ranges lie within the line on char boundaries is C13's business (partly decided there)"],
     'C13': ["the complex matchers (keywords via chomp_any_keyword, string literals, numerals, REM, DATA, identifiers) enter as ASSUMED contracts (decline without moving / consume a non-empty in-line stretch / fail without moving with an in-line position); chomp_keyword and chomp_number are checked against them by Kani for bounded input lengths, the others not at all", "character boundaries, ranges ENDING on a non-blank byte for every token kind, REM/DATA extending to the end of their text, and the re-tokenization clause (tokenizing the text of a range yields that one token) are undecided", "remaining_tokens / remaining_tokens_and_ranges (for-loops over `&mut self` as an iterator) are outside Verus; the ordering lemma is stated for two consecutive next() calls"],
     'C12': ["identifier scanning with keyword lookahead, numerals, DATA items (String::from_utf8, str::parse, trim) and the composition in Tokenizer::next: undecided, including the `DATA \"a\" :` defect"],
     'C06': ["statement-level agreement (assignment / FOR / NEXT / READ kind checks in statement_analyzer.rs vs statement.rs) and the converse direction need both evaluators executed: undecided", "operand parsing below the unary tier (evaluate_parenthesized_expression: terms, calls, array subscripts) is an assumed contract", "termination of the tier loops is not claimed (exec_allows_no_decreases_clause)"],
